@@ -53,7 +53,7 @@ class Plan(object):
     # ------------------------------------------------------------------------------------------------------
     def orders(self, mode='canonical', limit=500):
         """Dependency-respecting declaration orders (lists of indices into self.decls). Countries (and the external
-        sector) keep their canonical relative order and come first; the sector declarations are permuted."""
+        sector) come first; the sector declarations are permuted, and (unless a Region relies on the default currency) the countries among themselves."""
         n = len(self.decls)
         canon = list(range(n))
         if mode == 'canonical':
@@ -94,6 +94,10 @@ class Plan(object):
         out.append(countries + topo(fl + [i for i in sectors if i not in fl]))
         out.append(countries + topo(list(reversed(mk)) + list(reversed([i for i in sectors if i not in mk]))))
         out.append(countries + topo([i for i in sectors if i not in mk and i not in fl] + fl + mk))
+        if len(countries) >= 2 and 'default-currency-region' not in self.features:
+            # the countries (each with its stated currency) and the external sector in every other relative order
+            for cperm in list(itertools.permutations(countries))[1:24]:
+                out.append(list(cperm) + sectors)
         if mode in ('transpositions', 'all'):
             for a in range(len(sectors) - 1):
                 o = list(sectors)
@@ -175,6 +179,8 @@ def country(plan, cc, currency=None, kind='Country'):
         plan.decl(cc, lambda c: Country(c.model, c.nm(cc), currency=currency), kind='country')
     else:
         plan.decl(cc, lambda c: Region(c.model, c.nm(cc), currency=currency), kind='country')
+        if currency is None:
+            plan.features.add('default-currency-region')      # documented: such a Region joins the zone of the country declared last
 
 
 EXO_LEN = 12
